@@ -123,7 +123,7 @@ func scatter(a *anchors, r *rep, fn, read *ssa.Function) {
 	var scatterHeader *ssa.BasicBlock
 	defer func() {
 		if normJoin != nil {
-			normalsKept(a, r, e, fn, normJoin, normFallback)
+			normalsKept(a, r, e, fn, normJoin, normFallback, normalVarOf(a))
 		}
 		if scatterHeader != nil {
 			emptyGuardOnly(a, r, e, fn, scatterHeader, *n)
@@ -301,6 +301,16 @@ func scatter(a *anchors, r *rep, fn, read *ssa.Function) {
 			}
 		}
 	}
+}
+
+func normalVarOf(a *anchors) *types.Var {
+	st := a.tTri.Underlying().(*types.Struct)
+	for i := 0; i < st.NumFields(); i++ {
+		if st.Field(i).Name() == "Normal" {
+			return st.Field(i)
+		}
+	}
+	return nil
 }
 
 func fieldSetStr(fr map[*types.Var]bool) string {
@@ -794,11 +804,23 @@ func emptyGuardOnly(a *anchors, r *rep, e *sx.Env, fn *ssa.Function, header *ssa
 	}
 }
 
-// normalsKept: when the normals attribute is attached only under a flag, the
-// flag must be raised on every path that takes the stored-normal alternative
-// (otherwise stored normals are dropped from the mesh read back).
-func normalsKept(a *anchors, r *rep, e *sx.Env, fn *ssa.Function, join *ssa.Phi, fallbackEdges []int) {
-	key := a.p.FuncName(fn) + "#normals-kept"
+// normalsKept decides LATCH-1. When the normals attribute is attached only under
+// a loop-carried boolean flag, the flag must be a latch over the record loop:
+//
+//	(a) monotone — once true it stays true: the value carried around the back edge,
+//	    evaluated abstractly (sx.BoolEval, three-valued, package-local helpers
+//	    inlined) with the previous value set to true and everything else unknown,
+//	    is true (`flag = flag || e`, `if e { flag = true }`, `flag = or(flag, e)`);
+//	    an assignment that does not even read the previous value is a reset;
+//	(b) raised by every record that stores a normal: with the previous value false
+//	    and the record's Normal non-zero (each single component, and all), the
+//	    carried value is true.
+//
+// Contract assumed (recorded in the evidence): any record with a stored normal ⇒
+// the mesh read back carries the normals attribute — otherwise stored normals are
+// lost on ReadMesh → WriteMesh.
+func normalsKept(a *anchors, r *rep, e *sx.Env, fn *ssa.Function, join *ssa.Phi, fallbackEdges []int, normalVar *types.Var) {
+	key := a.p.FuncName(fn) + "#normals-flag"
 	var call *ssa.Call
 	ssau.AllInstrs(fn, func(in ssa.Instruction) {
 		if c, ok := in.(*ssa.Call); ok && a.isMeshMethod(c, "SetFloat3Attribute") && len(c.Call.Args) == 3 {
@@ -813,8 +835,9 @@ func normalsKept(a *anchors, r *rep, e *sx.Env, fn *ssa.Function, join *ssa.Phi,
 	pos := a.p.Pos(call.Pos())
 	uncond := true
 	after := join.Block()
+	var loop *ssau.Loop
 	if ls := e.LoopsOf(join.Block()); len(ls) > 0 {
-		after = ls[0].Header
+		after, loop = ls[0].Header, ls[0]
 	}
 	for _, ret := range sx.SuccessReturns(fn) {
 		if after.Dominates(ret.Block()) && !call.Block().Dominates(ret.Block()) {
@@ -822,7 +845,7 @@ func normalsKept(a *anchors, r *rep, e *sx.Env, fn *ssa.Function, join *ssa.Phi,
 		}
 	}
 	if uncond {
-		r.Hold("NRM-1", key, pos, "the normals array is attached unconditionally")
+		r.Hold("LATCH-1", key, pos, "the normals array is attached unconditionally")
 		return
 	}
 	// the guard
@@ -848,46 +871,132 @@ func normalsKept(a *anchors, r *rep, e *sx.Env, fn *ssa.Function, join *ssa.Phi,
 		cond, onTrue = u.X, !onTrue
 	}
 	hdr, ok := cond.(*ssa.Phi)
-	if !ok || !onTrue || !join.Block().Parent().Blocks[0].Dominates(hdr.Block()) {
-		a.c.R.Note("NRM-1 %s: guard of the normals attribute not recognised as a loop-carried flag; not judged", key)
+	if !ok || !onTrue || loop == nil || hdr.Block() != loop.Header {
+		a.c.R.Note("LATCH-1 %s: the guard of the normals attribute is not a flag carried around the record loop (e.g. computed by a helper over all records); not judged", key)
 		return
 	}
-	// latch value of the flag: a phi in the join block aligned with the normal's alternatives
-	var latch *ssa.Phi
+	var latches []ssa.Value
 	for i, ed := range hdr.Edges {
-		if hdr.Block().Dominates(hdr.Block().Preds[i]) {
-			if p, ok := ed.(*ssa.Phi); ok && p.Block() == join.Block() {
-				latch = p
-			}
+		if loop.Blocks[hdr.Block().Preds[i]] {
+			latches = append(latches, ed)
 		} else if c, ok := ed.(*ssa.Const); !ok || c.Value == nil || c.Value.String() != "false" {
-			a.c.R.Note("NRM-1 %s: flag does not start as false; not judged", key)
+			a.c.R.Note("LATCH-1 %s: flag does not start as false; not judged", key)
 			return
 		}
 	}
-	if latch == nil {
-		a.c.R.Note("NRM-1 %s: flag is not joined where the normal alternatives are joined; not judged", key)
-		return
-	}
-	isFallback := map[int]bool{}
-	for _, i := range fallbackEdges {
-		isFallback[i] = true
-	}
-	for i, ed := range latch.Edges {
-		if isFallback[i] {
-			continue
+	eval := func(v ssa.Value, prev sx.Tri, zero *[3]bool) sx.Tri {
+		be := &sx.BoolEval{Inline: a.inline}
+		var comp func(ssa.Value, *sx.Ctx) (sx.Tri, bool)
+		if zero != nil {
+			comp = normalAtom(a, e, normalVar, *zero)
 		}
-		okTrue := true
-		for _, lf := range phiLeaves(ed) {
-			if c, ok := lf.(*ssa.Const); !ok || c.Value == nil || c.Value.String() != "true" {
-				okTrue = false
+		be.Atom = func(x ssa.Value, ctx *sx.Ctx) (sx.Tri, bool) {
+			if x == ssa.Value(hdr) {
+				return prev, true
+			}
+			if comp != nil {
+				return comp(x, ctx)
+			}
+			return sx.TU, false
+		}
+		return be.Value(v, nil)
+	}
+	for _, l := range latches {
+		// (a) monotone
+		if got := eval(l, sx.TT, nil); got != sx.TT {
+			sl := sx.NewSlicer(a.inline).WithEnv(e)
+			sl.Control = true
+			sl.From(l, nil, nil)
+			if got == sx.TF {
+				r.Violate("LATCH-1", key, a.p.Pos(hdr.Pos()), "the flag that decides whether the normals attribute is attached can be reset: with the previous value true its update evaluates to false, so stored normals of earlier records are dropped")
+			} else if !sl.Has(hdr) {
+				r.Violate("LATCH-1", key, a.p.Pos(hdr.Pos()), "the flag that decides whether the normals attribute is attached is overwritten per record without reading its previous value: after the loop it reflects the last record only, so stored normals of earlier records are dropped when the last record has none")
+			} else {
+				r.Undecide("LATCH-1", key, a.p.Pos(hdr.Pos()), "the flag that decides whether the normals attribute is attached is not shown to stay true once set (its update reads the previous value but is not of the form flag || e / if e { flag = true })")
+			}
+			return
+		}
+	}
+	// (b) raised by stored normals
+	decided := true
+	for _, zero := range [][3]bool{{false, true, true}, {true, false, true}, {true, true, false}, {false, false, false}} {
+		z := zero
+		for _, l := range latches {
+			switch eval(l, sx.TF, &z) {
+			case sx.TF:
+				r.Violate("LATCH-1", key, pos, "a record with a stored (non-zero) normal does not raise the flag under which the normals attribute is attached: stored normals are dropped from the mesh read back")
+				return
+			case sx.TU:
+				decided = false
 			}
 		}
-		if !okTrue {
-			r.Violate("NRM-1", key, pos, "a record with a stored normal does not raise the flag under which the normals attribute is attached: stored normals are dropped from the mesh read back")
-			return
-		}
 	}
-	r.Hold("NRM-1", key, pos, "the normals attribute is attached under a flag that every stored-normal alternative sets")
+	facts := []string{"back-edge value is true whenever the previous value is true (abstract evaluation)"}
+	if decided {
+		facts = append(facts, "with the previous value false, a record whose Normal has any non-zero component sets it")
+	} else {
+		facts = append(facts, "raising by stored normals not decided for this predicate idiom")
+	}
+	_ = fallbackEdges
+	r.Hold("LATCH-1", key, pos, facts...)
+}
+
+// normalAtom decides comparisons `component ==/!= 0` of the record's Normal for a given zero pattern.
+func normalAtom(a *anchors, e *sx.Env, normalVar *types.Var, zero [3]bool) func(ssa.Value, *sx.Ctx) (sx.Tri, bool) {
+	vst := a.tVec.Underlying().(*types.Struct)
+	compOf := func(v ssa.Value, ctx *sx.Ctx) int {
+		sl := sx.NewSlicer(a.inline).WithEnv(e)
+		sl.From(v, nil, ctx)
+		tf := sl.FieldReads(a.tTri)
+		if len(tf) != 1 || !tf[normalVar] {
+			return -1
+		}
+		vf := sl.FieldReads(a.tVec)
+		if len(vf) != 1 {
+			return -1
+		}
+		for f := range vf {
+			for i := 0; i < vst.NumFields(); i++ {
+				if vst.Field(i) == f {
+					return i
+				}
+			}
+		}
+		return -1
+	}
+	isZeroConst := func(v ssa.Value) bool {
+		c, ok := v.(*ssa.Const)
+		if !ok || c.Value == nil {
+			return false
+		}
+		k := c.Value.Kind().String()
+		return (k == "Float" || k == "Int") && c.Value.String() == "0"
+	}
+	return func(v ssa.Value, ctx *sx.Ctx) (sx.Tri, bool) {
+		bo, ok := v.(*ssa.BinOp)
+		if !ok || (bo.Op != token.EQL && bo.Op != token.NEQ) {
+			return sx.TU, false
+		}
+		x, y := bo.X, bo.Y
+		if isZeroConst(x) {
+			x, y = y, x
+		}
+		if !isZeroConst(y) {
+			return sx.TU, false
+		}
+		c := compOf(x, ctx)
+		if c < 0 || c > 2 {
+			return sx.TU, false
+		}
+		res := sx.TF
+		if zero[c] {
+			res = sx.TT
+		}
+		if bo.Op == token.NEQ {
+			res = res.Not()
+		}
+		return res, true
+	}
 }
 
 // fallbackPolarity evaluates, over the abstract domain {zero, non-zero} for the
